@@ -84,6 +84,10 @@ type ORes struct {
 	HasRes bool      `json:"has_res"`
 	Attrs  []KV      `json:"attrs"`
 	Scopes [][]OSpan `json:"scopes"`
+	// ScopeMsg: rendering knob per scope group (does not reach the model: the decoder never looks at it): 0 = the optional `scope` message
+	// (InstrumentationScope) is absent on the wire, 1 = present and empty, 2 = present with name, version and an attribute; Schema: schema_url set
+	ScopeMsg []int `json:"scope_msg,omitempty"`
+	Schema   bool  `json:"schema,omitempty"`
 }
 
 // JV: a JSON value with ordered (possibly repeated) object keys.
@@ -344,8 +348,20 @@ func otlpBody(rs []ORes) []byte {
 		if r.HasRes {
 			x.Resource = &resource.Resource{Attributes: toKVs(r.Attrs)}
 		}
-		for _, sc := range r.Scopes {
+		if r.Schema {
+			x.SchemaUrl = "https://opentelemetry.io/schemas/1.21.0"
+		}
+		for j, sc := range r.Scopes {
 			ss := &trace.ScopeSpans{}
+			if j < len(r.ScopeMsg) {
+				switch r.ScopeMsg[j] {
+				case 1:
+					ss.Scope = &common.InstrumentationScope{}
+				case 2:
+					ss.Scope = &common.InstrumentationScope{Name: "lib", Version: "1.2", Attributes: toKVs([]KV{{K: "service.name", V: AVal{T: "s", S: "scope-attr-must-not-leak"}}})}
+					ss.SchemaUrl = "https://opentelemetry.io/schemas/1.21.0"
+				}
+			}
 			for _, sp := range sc {
 				ss.Spans = append(ss.Spans, toSpan(sp))
 			}
@@ -1270,9 +1286,9 @@ const nowNs = uint64(1727700000000000000)
 func genOtlp(r *rand.Rand, c *Case, depth int) {
 	c.Fmt = "otlp"
 	cls := r.Intn(100)
-	nilOK := cls >= 94 && cls < 97
-	noRes := cls >= 97
-	badIDs := cls >= 90 && cls < 94
+	nilOK := cls >= 89 && cls < 92
+	noRes := cls >= 92 // 8 %: some resource groups lack the optional resource message, mixed with ordinary groups
+	badIDs := cls >= 85 && cls < 89
 	plain := cls < 35 // strings only, no special keys: the guard of the partial theorems is met
 	c.Class = "otlp"
 	if plain {
@@ -1285,9 +1301,16 @@ func genOtlp(r *rand.Rand, c *Case, depth int) {
 		c.Class = "otlp-badids"
 	}
 	nres := 1 + r.Intn(3)
+	if noRes && nres == 1 && r.Intn(3) != 0 {
+		nres = 2 + r.Intn(2)
+	}
+	lacking := -1
+	if noRes {
+		lacking = r.Intn(nres) // this group lacks the resource message for sure, every other one with probability 1/3
+	}
 	for i := 0; i < nres; i++ {
-		res := ORes{HasRes: true, Attrs: []KV{}, Scopes: [][]OSpan{}}
-		if noRes && r.Intn(2) == 0 {
+		res := ORes{HasRes: true, Attrs: []KV{}, Scopes: [][]OSpan{}, Schema: r.Intn(4) == 0}
+		if noRes && (i == lacking || r.Intn(3) == 0) {
 			res.HasRes = false
 		}
 		if plain {
@@ -1304,13 +1327,13 @@ func genOtlp(r *rand.Rand, c *Case, depth int) {
 			}
 		}
 		nsc := r.Intn(3)
-		if i == 0 && nsc == 0 {
+		if (i == 0 || i == lacking) && nsc == 0 {
 			nsc = 1
 		}
 		for j := 0; j < nsc; j++ {
 			sc := []OSpan{}
 			nsp := r.Intn(4)
-			if i == 0 && j == 0 && nsp == 0 {
+			if (i == 0 || i == lacking) && j == 0 && nsp == 0 {
 				nsp = 1
 			}
 			for k := 0; k < nsp; k++ {
@@ -1363,6 +1386,7 @@ func genOtlp(r *rand.Rand, c *Case, depth int) {
 				sc = append(sc, sp)
 			}
 			res.Scopes = append(res.Scopes, sc)
+			res.ScopeMsg = append(res.ScopeMsg, r.Intn(3))
 		}
 		c.Otlp = append(c.Otlp, res)
 	}
